@@ -102,6 +102,27 @@ func ruleStopCancelsTable(c *chk.Ctx, owner string, table *types.Var, via *types
 				}
 			}
 		}
+		// maps.DeleteFunc(table, func(k, v) bool { v(); return true }): every entry is visited,
+		// its cancel function invoked, and the entry removed
+		ir.Instrs(g, func(ins ssa.Instruction) {
+			call, ok := ins.(*ssa.Call)
+			if !ok || !strings.HasPrefix(ir.CalleeName(&call.Call), "maps.DeleteFunc") || len(call.Call.Args) != 2 || !chk.LoadsField(call.Call.Args[0], table) {
+				return
+			}
+			var yf *ssa.Function
+			switch y := call.Call.Args[1].(type) {
+			case *ssa.MakeClosure:
+				yf = y.Fn.(*ssa.Function)
+			case *ssa.Function:
+				yf = y
+			}
+			if yf == nil || len(yf.Params) != 2 {
+				return
+			}
+			if _, ok := callsValueOrField(yf.Params[1], via); ok {
+				good = call
+			}
+		})
 		// range over maps.Values(table) / maps.All(table): go/ssa compiles the loop body into a
 		// yield function that is handed to the iterator
 		ir.Instrs(g, func(ins ssa.Instruction) {
@@ -248,7 +269,69 @@ func ruleRetainNotifications(c *chk.Ctx) {
 	// inside the Each callback: the append of the member is governed by isNotification() == true
 	cbs, _ := c.P.FuncValues(each.Common().Args[len(each.Common().Args)-1])
 	found := false
-	for _, cb := range cbs {
+	// the walk may hand each entry on to a function it was given (a wrapper `each(fn)` around the
+	// queue's own iteration): that function is part of the walk
+	walkFns := append([]*ssa.Function{}, cbs...)
+	for i := 0; i < len(walkFns) && i < 8; i++ {
+		c.P.ExtCalls(walkFns[i], func(ci ssa.CallInstruction) {
+			if ci.Common().StaticCallee() != nil || ci.Common().IsInvoke() {
+				return
+			}
+			if _, isB := ci.Common().Value.(*ssa.Builtin); isB {
+				return
+			}
+			gs, _ := c.P.Callees(ci)
+			for _, g := range gs {
+				dup := false
+				for _, w := range walkFns {
+					if w == g {
+						dup = true
+					}
+				}
+				if !dup && c.P.InRepo[g] {
+					walkFns = append(walkFns, g)
+				}
+			}
+		})
+	}
+	// truePred: the outcome cd says "is a notification": the predicate itself, or a function
+	// value (a keep/filter callback) all of whose true returns sit on the predicate's true edge
+	var truePred func(cd ir.Cond, depth int) bool
+	truePred = func(cd ir.Cond, depth int) bool {
+		pc, ok := cd.V.(*ssa.Call)
+		if !ok || !cd.Truth || depth > 2 {
+			return false
+		}
+		if g := pc.Call.StaticCallee(); g != nil {
+			return isNotificationPred(c, g)
+		}
+		gs, complete := c.P.Callees(pc)
+		if !complete || len(gs) != 1 || gs[0].Signature.Results().Len() != 1 {
+			return false
+		}
+		all, some := true, false
+		for _, r := range ir.Returns(gs[0]) {
+			k, isK := ir.ReturnResult(r, 0).(*ssa.Const)
+			if !isK || k.Value == nil {
+				return false
+			}
+			if k.Value.String() != "true" {
+				continue
+			}
+			some = true
+			okR := false
+			for _, cd2 := range ir.CondsAt(r.Block()) {
+				if truePred(cd2, depth+1) {
+					okR = true
+				}
+			}
+			if !okR {
+				all = false
+			}
+		}
+		return all && some
+	}
+	for _, cb := range walkFns {
 		c.P.ExtInstrs(cb, func(ins ssa.Instruction) {
 			call, ok := ins.(*ssa.Call)
 			if !ok {
@@ -259,10 +342,8 @@ func ruleRetainNotifications(c *chk.Ctx) {
 				return
 			}
 			for _, cd := range ir.CondsAt(call.Block()) {
-				if pc, ok := cd.V.(*ssa.Call); ok && cd.Truth {
-					if g := pc.Call.StaticCallee(); g != nil && isNotificationPred(c, g) {
-						found = true
-					}
+				if truePred(cd, 0) {
+					found = true
 				}
 			}
 		})
